@@ -214,6 +214,13 @@ func (a *SparseFloat64Matrix) Set(b ConstMatrix) {
     i, j := it.Index()
     it.Get().Set(b.ConstAt(i, j))
   }
+  // copy elements of b for which a has no entry yet
+  for it := b.ConstIterator(); it.Ok(); it.Next() {
+    i, j := it.Index()
+    if c := it.GetConst(); c.GetFloat64() != 0.0 || c.GetOrder() > 0 {
+      a.At(i, j).Set(c)
+    }
+  }
 }
 func (matrix *SparseFloat64Matrix) SetIdentity() {
   c := NewScalar(matrix.ElementType(), 1.0)
@@ -224,6 +231,11 @@ func (matrix *SparseFloat64Matrix) SetIdentity() {
     } else {
       it.Get().Reset()
     }
+  }
+  // create diagonal elements that are not stored yet
+  n, m := matrix.Dims()
+  for i := 0; i < n && i < m; i++ {
+    matrix.At(i, i).Set(c)
   }
 }
 func (matrix *SparseFloat64Matrix) Reset() {
